@@ -154,6 +154,8 @@ def run(ctx):
     ctx.not_decided += ["arccos(cos t) = t on [0, pi] and 2 pi - arccos(cos t) = t on [pi, 2 pi] (trusted identities of the inverse pair)"]
     ctx.assumptions += ["numpy transpose/fliplr/flipud generate the dihedral index maps; clip(v, lo, 0) on +-(size-1) with extents >= 1",
                         "raw images are indexed img[x, y]; detz_size = extent along x, dety_size = extent along y (the property's convention)"]
+    from xfabsa import numeric as _NH
+    _NH.hazard_rule(ctx, 'C11')
     return ("All 81 orientation matrices x both directions enumerated with concrete parameters (every branch folds): validity and "
             "ValueError on the other 73, forward/inverse round trips as index maps with symbolic extents (any shape), agreement of "
             "the pixel map with the image map, mutual inversion of the coordinate maps as affine normal forms (any real "
